@@ -10,18 +10,25 @@ import (
 	"fmt"
 	"io"
 	"net"
+	"runtime"
 	"sync"
+	"time"
 
 	"github.com/postalsys/muti-metroo/internal/protocol"
 )
 
-// nsCall runs f in a goroutine and keeps the mesh moving until it returns.
+// nsCall runs f in a goroutine and keeps the mesh moving until it returns. Frames are delivered by
+// a separate pump goroutine: a delivery can block inside the code under test (e.g. a full stream
+// read buffer whose reader has stopped after an error), and that must not hang the driver. If the
+// pump is still stuck when f has returned, the world is marked dirty (the caller rebuilds it).
 func nsCall[T any](nt *nsNet, f func() (T, error)) (T, error, bool) {
 	var (
-		mu   sync.Mutex
-		done bool
-		v    T
-		err  error
+		mu      sync.Mutex
+		done    bool
+		v       T
+		err     error
+		stop    bool
+		pumping bool
 	)
 	go func() {
 		x, e := f()
@@ -29,14 +36,45 @@ func nsCall[T any](nt *nsNet, f func() (T, error)) (T, error, bool) {
 		v, err, done = x, e, true
 		mu.Unlock()
 	}()
+	pumpDone := make(chan struct{})
+	go func() {
+		defer close(pumpDone)
+		for {
+			mu.Lock()
+			s := stop
+			mu.Unlock()
+			if s {
+				return
+			}
+			mu.Lock()
+			pumping = true
+			mu.Unlock()
+			n := nt.run(nil, 64)
+			mu.Lock()
+			pumping = false
+			mu.Unlock()
+			if n == 0 {
+				runtime.Gosched()
+			}
+		}
+	}()
 	ok := nsWait(func() bool {
-		nt.run(nil, 100000)
 		mu.Lock()
 		defer mu.Unlock()
 		return done
 	})
 	mu.Lock()
+	stop = true
+	mu.Unlock()
+	// give the pump a bounded chance to finish its current delivery
+	select {
+	case <-pumpDone:
+	case <-time.After(2 * time.Second):
+		nt.dirty = true
+	}
+	mu.Lock()
 	defer mu.Unlock()
+	_ = pumping
 	return v, err, ok
 }
 
